@@ -1371,6 +1371,14 @@ fn resp_case(
             ctx.fail(idx, "response/unexpected-error", format!("{}", v.get("error").map(|e| e.to_string()).unwrap_or_default()));
         } else {
             ctx.count("response_uuid_error");
+            if req.get("destination_vertex").is_none() && req.get("origin_vertex").and_then(|x| x.as_u64()).is_some() {
+                // observed behaviour (reported, outside the literal statement of C20): a destination-less query
+                // with the uuid plugin configured is answered with an error response, the tree is lost
+                ctx.count("response_uuid_error_destinationless_query");
+                if std::env::var("C20_DEBUG").is_ok() {
+                    eprintln!("UUID-NO-DESTINATION request {} trees {:?} -> {}", req, trees.iter().map(|t| t.len()).collect::<Vec<_>>(), v);
+                }
+            }
         }
         return;
     }
